@@ -155,6 +155,10 @@ pub fn run_e7(spec: &ShardSpec, cur: Option<&str>) -> Outcome {
     let mix = spec.extra.get("mix").map_or(false, |s| s == "1");
     // head-room probe (C04) shortly after every resize start
     let fill = spec.extra.get("fill").map_or(false, |s| s == "1");
+    // at every resize start: remove len/shrink_frac of the oldest keys, shrink_to_fit, then the
+    // head-room probe (a pending resize must keep its head-room through a shrink at any size)
+    let shrink_frac: u32 = spec.extra.get("shrink_frac").and_then(|s| s.parse().ok()).unwrap_or(0);
+    let mut next_remove: u32 = 0;
     let mut since_resize = u32::MAX;
     let mut out = Outcome::default();
     let mut curf = CurFile::new(cur);
@@ -192,7 +196,7 @@ pub fn run_e7(spec: &ShardSpec, cur: Option<&str>) -> Outcome {
             }
         }
     };
-    'grow: while (w.r.len()) < spec.n {
+    'grow: while w.r.len() < spec.n && (k as usize) < 4 * spec.n.max(64) {
         if k % 4096 == 0 {
             curf.put(&[Op::arg(OpK::ExtendFresh, k as u64)], None);
             PROGRESS.fetch_add(1, std::sync::atomic::Ordering::Relaxed);
@@ -212,6 +216,22 @@ pub fn run_e7(spec: &ShardSpec, cur: Option<&str>) -> Outcome {
             since_resize = 0;
         } else if since_resize != u32::MAX {
             since_resize += 1;
+        }
+        if shrink_frac > 0 && since_resize == 1 {
+            let m = (w.r.len() as u32 / shrink_frac).max(1);
+            for _ in 0..m {
+                if !do_op(&mut w, Op::key(OpK::Remove, next_remove), &mut out, &mut hist_tail) {
+                    break 'grow;
+                }
+                next_remove += 1;
+            }
+            for op in [Op::k(OpK::ShrinkToFit), Op::k(OpK::FillToCap)] {
+                if !do_op(&mut w, op, &mut out, &mut hist_tail) {
+                    break 'grow;
+                }
+            }
+            k = w.next_key;
+            since_resize = u32::MAX;
         }
         if fill && (since_resize == 2 || since_resize == 9) {
             if !do_op(&mut w, Op::k(OpK::FillToCap), &mut out, &mut hist_tail) {
